@@ -336,6 +336,87 @@ fn witnesses() -> Vec<(&'static str, &'static str, Vec<Op>)> {
     ]
 }
 
+// ---- (C) a reader array and an anchor: every geometric relation between input range and spill block ----
+fn col_letters(c: i32) -> String { ((b'A' + (c - 1) as u8) as char).to_string() }
+fn num_at(ws: &Worksheet, r: i32, c: i32) -> Option<f64> {
+    match ws.sheet_data.get(&r).and_then(|m| m.get(&c)) {
+        Some(Cell::ArrayFormula { v: FormulaValue::Number(n), .. }) | Some(Cell::CellFormula { v: FormulaValue::Number(n), .. }) => Some(*n),
+        Some(Cell::SpillCell { v: SpillValue::Number(n), .. }) => Some(*n),
+        Some(Cell::NumberCell { v, .. }) => Some(*v),
+        _ => None,
+    }
+}
+/// the values every dynamic anchor and spill cell shows (position -> bits / kind), to compare two evaluations
+fn array_values(ws: &Worksheet) -> Vec<String> {
+    sorted_cells(ws).into_iter().filter_map(|(r, c, cell)| match cell {
+        Cell::ArrayFormula { v, r: ext, .. } => Some(format!("{r},{c}:A{ext:?}:{v:?}")),
+        Cell::SpillCell { v, a, .. } => Some(format!("{r},{c}:S{a:?}:{v:?}")),
+        _ => None,
+    }).collect()
+}
+
+/// anchor =SEQUENCE(3,3) at E5 (block E5:G7); reader at A1 (before it in evaluation order) or A10 (after it);
+/// the reader's input range is every rectangle up to 3x3 inside D4:H8 (one ring around the block).
+/// Expected values are computed here from the geometry, not taken from the engine.
+fn run_geometry(or: &mut Oracle, thorough: bool) -> (u64, u64) {
+    let (br, bc, n) = (5i32, 5i32, 3i32);
+    let block = |r: i32, c: i32| -> f64 { if r >= br && r < br + n && c >= bc && c < bc + n { ((r - br) * n + (c - bc) + 1) as f64 } else { 0.0 } };
+    let (mut scen, mut touching) = (0u64, 0u64);
+    for r1 in 4..=8 { for r2 in r1..=(r1 + 2).min(8) { for c1 in 4..=8 { for c2 in c1..=(c1 + 2).min(8) {
+        let range = format!("{}{}:{}{}", col_letters(c1), r1, col_letters(c2), r2);
+        let overlaps = r1 <= br + n - 1 && r2 >= br && c1 <= bc + n - 1 && c2 >= bc;
+        for form in 0..2 {
+            // form 0: the range itself times two (same shape as the range); form 1: a 2x1 array scaled by the sum of the range
+            let text = if form == 0 { format!("={range}*2") } else { format!("=SEQUENCE(2)*SUM({range})") };
+            let (eh, ew) = if form == 0 { (r2 - r1 + 1, c2 - c1 + 1) } else { (2, 1) };
+            let sum: f64 = (r1..=r2).flat_map(|r| (c1..=c2).map(move |c| (r, c))).map(|(r, c)| block(r, c)).sum();
+            let expect = |i: i32, j: i32| -> f64 { if form == 0 { 2.0 * block(r1 + i, c1 + j) } else { (i + 1) as f64 * sum } };
+            for reader_row in [1i32, 10] {
+                // 0: Model, everything entered (reader first), one evaluate; 1: same, anchor entered first;
+                // 2: UserModel (evaluates after each input), reader first; 3: UserModel, anchor first
+                for mode in 0..4 {
+                    if !thorough && mode == 1 && form == 1 { continue; }
+                    let inputs: Vec<(i32, i32, String)> = if mode % 2 == 0 { vec![(reader_row, 1, text.clone()), (br, bc, "=SEQUENCE(3,3)".to_string())] }
+                        else { vec![(br, bc, "=SEQUENCE(3,3)".to_string()), (reader_row, 1, text.clone())] };
+                    scen += 1; if overlaps { touching += 1; }
+                    or.checked += 1;
+                    let mut model_holder;
+                    let mut user_holder;
+                    let model: &mut Model = if mode < 2 {
+                        model_holder = Model::new_empty("g", "en", "UTC", "en").unwrap();
+                        for (r, c, t) in &inputs { model_holder.set_user_input(0, *r, *c, t.clone()).unwrap(); }
+                        model_holder.evaluate();
+                        &mut model_holder
+                    } else {
+                        user_holder = ironcalc_base::UserModel::new_empty("g", "en", "UTC", "en").unwrap();
+                        for (r, c, t) in &inputs { user_holder.set_user_input(0, *r, *c, t).unwrap(); }
+                        model_holder = Model::from_bytes(&user_holder.to_bytes(), "en").unwrap();
+                        // from_bytes keeps the stored values: this is the state the user sees
+                        &mut model_holder
+                    };
+                    let input = json!({"reader": format!("A{reader_row} {text}"), "anchor": "E5 =SEQUENCE(3,3)", "entered": if mode % 2 == 0 { "reader first" } else { "anchor first" }, "api": if mode < 2 { "Model: all inputs, one evaluate" } else { "UserModel: evaluate after each input" }});
+                    let where_ = if reader_row == 1 { "reader-before-anchor" } else { "reader-after-anchor" };
+                    // 1. the anchor's block
+                    let ws = &model.workbook.worksheets[0];
+                    let mut bad: Option<String> = None;
+                    for r in br..br + n { for c in bc..bc + n { if num_at(ws, r, c) != Some(block(r, c)) && bad.is_none() { bad = Some(format!("anchor block cell ({r},{c}) shows {:?}, expected {}", num_at(ws, r, c), block(r, c))); } } }
+                    // 2. the reader's block: every element of its CURRENT result
+                    for i in 0..eh { for j in 0..ew { let got = num_at(ws, reader_row + i, 1 + j); if got != Some(expect(i, j)) && bad.is_none() { bad = Some(format!("reader cell ({},{}) shows {:?}, expected {}", reader_row + i, 1 + j, got, expect(i, j))); } } }
+                    let (e, f, why) = spill_bits(ws);
+                    if (!e || !f) && bad.is_none() { bad = Some(why); }
+                    if let Some(d) = bad { or.fail(&format!("spill-value-wrong:{where_}"), input.clone(), d); continue; }
+                    // 3. nothing is stale: a second evaluation changes no array value
+                    let before = array_values(ws);
+                    model.evaluate();
+                    let after = array_values(&model.workbook.worksheets[0]);
+                    if before != after { or.fail(&format!("stale-until-reevaluated:{where_}"), input, format!("a second evaluate changes array values: {:?} -> {:?}", before.iter().zip(after.iter()).find(|(x, y)| x != y), ())); }
+                }
+            }
+        }
+    } } } }
+    (scen, touching)
+}
+
 fn main() {
     let a = Args::parse();
     if a.extra.first().map(|x| x == "probe").unwrap_or(false) {
@@ -354,6 +435,8 @@ fn main() {
             or.fail(class, json!({"witness": what, "history": ops_json(&ops)}), format!("{what}: {why}"));
         }
     }
+    // (C)
+    let (geo_scen, geo_touching) = run_geometry(&mut or, a.thorough);
     // (B)
     let mut rng = Rng::new(a.seed ^ 0xC31);
     let (nh, maxl) = if a.thorough { (1500u64, 40i64) } else { (150u64, 30i64) };
@@ -437,7 +520,7 @@ fn main() {
     let total = cs.n;
     cs.finish(json!({
         "oracle_failures": or.failures, "oracle_checked": or.checked, "oracle_failures_per_class": or.per_class,
-        "distribution": {"tie_cases": tie_cases, "tie_eval": tst.cases, "tie_input": tst.inputs, "tie_spilled": tst.spilled, "tie_blocked": tst.blocked, "tie_out_of_bounds": tst.oob,
+        "distribution": {"tie_cases": tie_cases, "tie_eval": tst.cases, "tie_input": tst.inputs, "geometry_scenarios": geo_scen, "geometry_range_touches_block": geo_touching, "tie_spilled": tst.spilled, "tie_blocked": tst.blocked, "tie_out_of_bounds": tst.oob,
                          "histories": nh, "steps": steps, "states_checked": states, "states_with_dynamic_anchor": with_dyn, "states_with_spill_cells": with_spill, "states_with_spill_error": blocked_states, "op_kinds": kinds},
         "samples": samples, "distinct_nontrivial": tst.spilled + tst.blocked + tst.oob + with_dyn, "total_cases": total,
     }));
